@@ -432,6 +432,62 @@ def grid_cases(ctx):
                                 case={"seed": seed, "edits": nedits}, expected=want, observed=names)
             else:
                 ctx.trace(1)
+            # ---- a mixed batch of directory edits requested back to back: the outcome of every request and the final
+            # directory must be those of running the requests one after the other in request order (name -> cap map
+            # with user metadata); an edit that is split into separately queued steps lets later requests slip in between
+            from allmydata.interfaces import NoSuchChildError
+            model = dict((nm, (lits[j], None)) for j, nm in enumerate(want))
+            names_pool = want[:3] + [u"new-a", u"new-b"]
+            ops, expect = [], []
+            for j in range(r.choice([5, 6, 8])):
+                kind = r.choice(["set_metadata_for", "set_metadata_for", "delete", "set_uri", "set_uri", "set_metadata_for"])
+                nm = r.choice(names_pool)
+                if kind == "delete":
+                    expect.append("ok" if nm in model else "NoSuchChildError")
+                    model.pop(nm, None)
+                    ops.append((kind, nm, None))
+                elif kind == "set_uri":
+                    capj = b"URI:LIT:" + base32.b2a(b"v%d-%d" % (j, r.randrange(1000)))
+                    model[nm] = (capj, model.get(nm, (None, None))[1])
+                    expect.append("ok")
+                    ops.append((kind, nm, capj))
+                else:
+                    md = {u"tag": u"m%d" % j}
+                    expect.append("ok" if nm in model else "NoSuchChildError")
+                    if nm in model:
+                        model[nm] = (model[nm][0], md)
+                    ops.append((kind, nm, md))
+            hs = [handles[k_] for k_ in sorted(handles)]
+            dsm = []
+            for j, (kind, nm, arg) in enumerate(ops):
+                h = hs[r.randrange(len(hs))]
+                if kind == "delete":
+                    dsm.append(h.delete(nm))
+                elif kind == "set_uri":
+                    dsm.append(h.set_uri(nm, arg, arg))
+                else:
+                    dsm.append(h.set_metadata_for(nm, arg))
+            outm = g.run(defer.DeferredList(dsm, consumeErrors=True), outcome=True)
+            final = g.run(n1.list(), outcome=True)
+            ctx.case(("mixed-edits", seed, tuple((k_, n_) for k_, n_, _a in ops)), kind="grid-mixed-directory-edits")
+            case = {"seed": seed, "ops": [(k_, n_, repr(a_)) for k_, n_, a_ in ops]}
+            if outm.status != "ok" or final.status != "ok":
+                ctx.oracle_fail("concurrent-edit-failed", "a batch of directory edits did not finish: %r / %r" % (outm, final), case=case)
+            else:
+                got = ["ok" if ok_ else ("NoSuchChildError" if res_.check(NoSuchChildError) else res_.type.__name__) for ok_, res_ in outm.value]
+                have = dict((nm, (ch[0].get_uri(), dict((k_, v_) for k_, v_ in ch[1].items() if k_ != "tahoe") or None)) for nm, ch in final.value.items())
+                wantm = dict((nm, (c_, m_ or None)) for nm, (c_, m_) in model.items())
+                # user metadata is only judged where the last word on it was a set_metadata_for
+                def strip(d_):
+                    return dict((nm, (c_, m_ if wantm.get(nm, (None, None))[1] else None)) for nm, (c_, m_) in d_.items())
+                if got != expect:
+                    ctx.oracle_fail("concurrent-edit-outcome-not-sequential", "directory edits requested back to back ended %r; run one after the other in request "
+                                    "order they end %r" % (got, expect), case=case, expected=expect, observed=got)
+                elif strip(have) != strip(wantm):
+                    ctx.oracle_fail("concurrent-edit-lost", "directory edits requested back to back left %r; run one after the other in request order they leave %r" % (
+                        sorted(strip(have).items()), sorted(strip(wantm).items())), case=case)
+                else:
+                    ctx.trace(1)
 
 
 # ---------------------------------------------------------------------------
